@@ -7492,8 +7492,10 @@ func (l *Lowerer) lowerCall(call *parser.CallExpr, target *[]ir.Statement) (ir.E
 	// Check if this is a type constructor (struct, vector, matrix, scalar, or type alias).
 	// This includes lazily-registered types like f16, f64, i64, u64.
 	typeHandle, typeExists := l.types[funcName]
-	if !typeExists {
-		// Try resolving as a named type (triggers lazy registration for f16, i64, etc.)
+	if _, isUserFunc := l.functions[funcName]; !typeExists && !isUserFunc {
+		// Try resolving as a named type (triggers lazy registration for f16, i64, etc.).
+		// Not for user-declared functions: resolveNamedType accepts any name starting
+		// with "texture" as an image type, which would hijack e.g. fn textureScale().
 		resolved, err := l.resolveNamedType(&parser.NamedType{Name: funcName})
 		if err == nil {
 			typeHandle = resolved
